@@ -80,6 +80,28 @@ class C18Oracle(worldprop.Oracle):
                     self.fail(idx, "get_record raised", container=cname, spelling="absent", exc=repr(e))
                 if got:
                     self.fail(idx, "get_record returned records for an absent identifier", container=cname)
+                # bare local names: they denote <effective default namespace> + local *now*, whatever any earlier
+                # resolution of the same string gave (own default, else the enclosing document's)
+                dflt = c._namespaces._default
+                if dflt is None and c is not d:
+                    dflt = d._namespaces._default
+                locals_ = []
+                for r in recs:
+                    if r.identifier is not None and ":" not in r.identifier.localpart and r.identifier.localpart \
+                            and r.identifier.localpart not in locals_:
+                        locals_.append(r.identifier.localpart)
+                for loc in locals_[:5]:
+                    try:
+                        got = c.get_record(loc)          # c is a deep copy taken now: memoised state comes along
+                    except Exception as e:
+                        self.fail(idx, "get_record raised", container=cname, spelling="bare-local", exc=repr(e))
+                        continue
+                    got = list(got) if got is not None else []
+                    want = [r for r in recs if dflt is not None and r.identifier is not None
+                            and r.identifier.uri == dflt.uri + loc]
+                    if len(got) != len(want) or any(a is not b for a, b in zip(got, want)):
+                        self.fail(idx, "get_record(bare local name) disagrees with the record list", container=cname,
+                                  local=loc, default=(dflt.uri if dflt is not None else None), got=len(got), want=len(want))
                 # identifiers of the sibling containers that this container does not hold
                 own = set(uris)
                 seen_sib = []
@@ -126,6 +148,40 @@ def nontrivial(ops):
                                           "Flattened", "DocFromRecords")) >= 3
 
 
+def scoping_histories():
+    """fixed programs: a bundle that resolves names through its document and then gets a default namespace of its own
+    (explicitly, by update(), by a record carrying a prefix-less QualifiedName), with lookups in every spelling
+    before and after"""
+    U1, U2 = "http://example.org/one/", "http://example.org/two/"
+    out = []
+    b = ["b", "0", "0"]
+    for doc_default in (None, U1):
+        for how in ("update", "setdefault", "record", "none"):
+            for early_lookup in (False, True):
+                p = [["NewDoc"]]
+                if doc_default:
+                    p.append(["SetDefault", ["d", "0"], doc_default])
+                p += [["AddNs", ["d", "0"], "ex", "http://example.org/ex/"], ["NewBundle", "0", ["S", "ex:b"]]]
+                first = ["S", "a"] if doc_default else ["S", "ex:a"]
+                p.append(["NewRecord", b, "Entity", first, []])
+                p.append(["NewRecord", ["d", "0"], "Entity", first, []])
+                if early_lookup:
+                    p += [["GetRecord", b, ["S", "a"]], ["GetRecord", b, first], ["GetRecord", ["d", "0"], first]]
+                if how == "update":
+                    p += [["NewDoc"], ["SetDefault", ["d", "1"], U2], ["NewRecord", ["d", "1"], "Entity", ["S", "c"], []],
+                          ["Update", b, ["d", "1"]]]
+                elif how == "setdefault":
+                    p.append(["SetDefault", b, U2])
+                elif how == "record":
+                    p.append(["NewRecord", b, "Entity", ["Q", "", U2, "c"], []])
+                p += [["GetRecord", b, ["S", "a"]], ["GetRecord", b, ["S", "c"]], ["GetRecord", b, first],
+                      ["GetRecord", b, ["S", (doc_default or "http://example.org/ex/") + "a"]],
+                      ["NewRecord", b, "Entity", ["S", "a"], []], ["GetRecord", b, ["S", "a"]],
+                      ["GetRecord", ["d", "0"], ["S", "a"]], ["GetRecord", ["d", "0"], first]]
+                out.append(p)
+    return out
+
+
 def run(tier, seed, log, model_runs=True, enlarged=False):
     return worldprop.run(PROP, tier, seed, log, model_runs, enlarged, C18Oracle, ["merge", "mixed", "records"],
                          n_quick=150, n_thorough=2500, classify=classify, nontrivial=nontrivial,
@@ -134,7 +190,10 @@ def run(tier, seed, log, model_runs=True, enlarged=False):
                                    "mutating call each container of a deep copy of the world is probed: get_record in every "
                                    "spelling that denotes the identifier, an absent identifier, identifiers held only by sibling containers "
                                    "(the enclosing document, other bundles), get_records for every class "
-                                   "and abstract base, records-is-a-copy; non-trivial = >=3 record-inserting calls",
+                                   "and abstract base, records-is-a-copy; plus 16 fixed scoping histories (a bundle resolving through its document, then getting its "
+                                   "own default namespace by set_default_namespace / update / a prefix-less name); "
+                                   "non-trivial = >=3 record-inserting calls",
+                         extra_cases=scoping_histories(),
                          theorem_note="C18_* over World.add_rec_to / Interp.step")
 
 
